@@ -885,6 +885,8 @@ func (c *Conn) handleReturn(ctx context.Context, ret rpccp.Return, releaseRet ca
 		// Pipelined calls that reach q from now on (the promise waits for
 		// them before it resolves) must not go to the remote vat any more.
 		q.returned, q.result = true, pr.result
+	} else {
+		q.err = pr.err
 	}
 	switch {
 	case q.bootstrapPromise != nil && pr.err == nil:
